@@ -129,6 +129,10 @@ func c10Targets() []c10Target {
 			d.Populate()
 			decoration.RegisterDecorationName(name, d)
 		}
+		// glyphs that are metacharacters of fmt, templates and HTML are glyphs like any other
+		meta := decoration.Decoration{Horizontal: "-", Vertical: "$", CrossPiece: "%", TopLeft: "{", TopRight: "}", BottomLeft: "<", BottomRight: "&"}
+		meta.Populate()
+		decoration.RegisterDecorationName("acme-meta", meta)
 	})
 	for _, name := range decoration.RegisteredDecorationNames() {
 		name := name
@@ -171,7 +175,7 @@ var c10Wrappers = []struct {
 	{"auto.Wrap(utf8-light)", func(t tabular.Table) tabular.Table { return auto.Wrap(t, "utf8-light") }},
 }
 
-const c10Fam = gen.FAscii | gen.FNewline | gen.FWide | gen.FCombining | gen.FCSV | gen.FHTML | gen.FMD | gen.FEmoji
+const c10Fam = gen.FAscii | gen.FNewline | gen.FWide | gen.FCombining | gen.FCSV | gen.FHTML | gen.FMD | gen.FEmoji | gen.FEdge
 
 type c10Case struct {
 	Table gen.TableSpec `json:"table"`
@@ -302,7 +306,7 @@ func init() {
 	register(&Prop{
 		ID:    "C10",
 		Level: "exploration",
-		Rule: "one random table (0-4 columns x 0-5 rows, ragged/zero-cell rows, separators, header anywhere, every row-building route, hostile texts, occasionally size-declaring or non-string items) per case; its construction history is replayed on a table from every creation path (tabular.New, csv/html/json/markdown/texttable.New, auto.New(style) for every listed style) and rendered to every target format (csv, html, json, markdown, text under the default and every registered decoration, including six application-registered ones with mixed-case, upper-cased-built-in, dotted and spaced names) through every route (package Render/RenderTo, Wrap().Render/RenderTo, auto.Render/RenderTo/Wrap with case variants, trailing sections and texttable. prefixes) plus 6 random wrapper nestings of depth 1-3 per format; each render uses a freshly built table. " +
+		Rule: "one random table (0-4 columns x 0-5 rows, ragged/zero-cell rows, separators, header anywhere, every row-building route, hostile texts, occasionally size-declaring or non-string items) per case; its construction history is replayed on a table from every creation path (tabular.New, csv/html/json/markdown/texttable.New, auto.New(style) for every listed style) and rendered to every target format (csv, html, json, markdown, text under the default and every registered decoration, including seven application-registered ones with mixed-case, upper-cased-built-in, dotted and spaced names, one of them made of fmt/template/HTML metacharacters) through every route (package Render/RenderTo, Wrap().Render/RenderTo, auto.Render/RenderTo/Wrap with case variants, trailing sections and texttable. prefixes) plus 6 random wrapper nestings of depth 1-3 per format; each render uses a freshly built table. " +
 			"Every output and error status must equal the reference route (tabular.New + direct Wrap + Render); right after any render that returned an error, Render and RenderTo of a small well-formed table are compared in all five formats. Distinct = distinct (shape, texts); non-trivial = at least one column and one body row.",
 		Assumptions: []string{
 			"equality only: which bytes are right is the business of C03-C08",
